@@ -274,7 +274,8 @@ pub fn cases(tier: &str, seed: u64) -> Vec<Case> {
         }
         push_case(&mut v, &chain, at, "chain-depth");
     }
-    for depth in [254usize, 255, 256, 257, 300, 511, 512, 1000, 3000] {
+    // (up to the longest chain the 14-bit offset range can hold: the last pointer sits at offset 16382)
+    for depth in [254usize, 255, 256, 257, 300, 511, 512, 1000, 3000, 4095, 4096, 4097, 5000, 8000, 8189] {
         let mut chain = vec![2u8, b'o', b'k', 0];
         let mut at = 0usize;
         for _ in 0..depth {
@@ -305,10 +306,13 @@ pub fn cases(tier: &str, seed: u64) -> Vec<Case> {
             (vec![0x41, b'a', 0], "label-type-01"), (vec![0x81, b'a', 0], "label-type-10"), (long_label, "label-64"), (too_long, "name-257"),
             (vec![0xC0, 0xFE], "pointer-self"), (vec![0xFF, 0xFF], "pointer-outside"), (vec![1, b'a', 0xC0, 0xFD], "pointer-cycle"),
         ];
+        // under every kind of header: a query, a response, each flag (TC among them - a message cut short by its sender is
+        // still a message whose names are decoded or refused like any other), other opcodes and response codes
+        let headers: [[u8; 2]; 12] = [[0x80, 0], [0, 0], [0x82, 0], [0x02, 0], [0x84, 0], [0x81, 0x80], [0x80, 0x30], [0xA0, 0], [0xA8, 0], [0x80, 3], [0x82, 0x0F], [0x87, 0xBF]];
         for (name, what) in &bad {
-            for place in 0..5usize {
+            for place in 0..5usize { for hw in &headers {
                 // header counts: one entry in the place's section; a valid first question when the bad name is elsewhere
-                let mut m = vec![0u8, 9, 0x80, 0, 0, if place == 0 { 1 } else { 0 }, 0, if place == 1 || place == 4 { 1 } else { 0 }, 0, if place == 2 { 1 } else { 0 }, 0, if place == 3 { 1 } else { 0 }];
+                let mut m = vec![0u8, 9, hw[0], hw[1], 0, if place == 0 { 1 } else { 0 }, 0, if place == 1 || place == 4 { 1 } else { 0 }, 0, if place == 2 { 1 } else { 0 }, 0, if place == 3 { 1 } else { 0 }];
                 let at = m.len() + if place == 4 { 3 + 10 } else { 0 };
                 let fix = |n: &Vec<u8>, at: usize| -> Vec<u8> { let mut n = n.clone(); let k = n.len(); if k >= 2 && n[k - 2] == 0xC0 { match n[k - 1] { 0xFE => { n[k - 2] = 0xC0 | (at >> 8) as u8; n[k - 1] = at as u8; } 0xFD => { n[k - 2] = 0xC0 | (at >> 8) as u8; n[k - 1] = at as u8; } _ => {} } } n };
                 let nb = fix(name, at);
@@ -323,7 +327,26 @@ pub fn cases(tier: &str, seed: u64) -> Vec<Case> {
                 watch(&format!("parse {}", text::hex(&m)));
                 let out = guard(move || match Packet::parse(&mm) { Ok(p) => format!("ok {}", text::packet(&p)), Err(_) => "err".to_string() });
                 let mut c = Case::new(format!("parse {}", text::hex(&m)), out.clone()).tag("message-bad-name").tag(&format!("place:{}", ["question", "answer", "authority", "additional", "rdata"][place]));
-                if class_of(&out) != "err" { c = c.fail("bad-name-accepted", format!("{} as the {} name of a message is not an error: {}", what, ["question", "answer owner", "authority owner", "additional owner", "CNAME target"][place], &out[..out.len().min(120)])); }
+                if class_of(&out) != "err" { c = c.fail("bad-name-accepted", format!("{} as the {} name of a message (header word {:02x}{:02x}) is not an error: {}", what, ["question", "answer owner", "authority owner", "additional owner", "CNAME target"][place], hw[0], hw[1], &out[..out.len().min(120)])); }
+                v.push(c);
+            } }
+        }
+        // ... and the same names behind one good record of the section, so that "keep what arrived whole" shows
+        for (name, what) in &bad {
+            for hw in &headers {
+                let mut m = vec![0u8, 9, hw[0], hw[1], 0, 0, 0, 2, 0, 0, 0, 0];
+                m.extend_from_slice(&[1, b'o', 0, 0, 1, 0, 1, 0, 0, 0, 5, 0, 4, 10, 0, 0, 1]);
+                let at = m.len();
+                let mut nb = name.clone();
+                let k = nb.len();
+                if k >= 2 && nb[k - 2] == 0xC0 && (nb[k - 1] == 0xFE || nb[k - 1] == 0xFD) { nb[k - 2] = 0xC0 | (at >> 8) as u8; nb[k - 1] = at as u8; }
+                m.extend_from_slice(&nb);
+                m.extend_from_slice(&[0, 1, 0, 1, 0, 0, 0, 5, 0, 4, 10, 0, 0, 2]);
+                m.extend_from_slice(&[0u8; 6]);
+                let mm = m.clone();
+                let out = guard(move || match Packet::parse(&mm) { Ok(p) => format!("ok {}", text::packet(&p)), Err(_) => "err".to_string() });
+                let mut c = Case::new(format!("parse {}", text::hex(&m)), out.clone()).tag("message-bad-name").tag("place:second-answer");
+                if class_of(&out) != "err" { c = c.fail("bad-name-accepted", format!("{} as the owner of the second answer (header word {:02x}{:02x}) is not an error: {}", what, hw[0], hw[1], &out[..out.len().min(120)])); }
                 v.push(c);
             }
         }
